@@ -59,7 +59,7 @@ struct ProbeSink : public Sink {
         bool ok = id >= 0 && id < NMSG;
         if (ok) {
             int p = id / VF_MSGS;
-            ok = m.type() == (QtMsgType)(id % 5) && m.line() == 100 + id && m.threadId() == quint64(0x1000) * quint64(tid_of_producer(p))
+            ok = m.type() == (QtMsgType)((id * 2) % 5) && m.line() == 100 + id && m.threadId() == quint64(0x1000) * quint64(tid_of_producer(p))
                  && m.file() != nullptr && m.file()[0] == char('F' + id) && m.file()[1] == 0
                  && m.function() != nullptr && m.function()[0] == char('f') && m.function()[1] == char('0' + id) && m.function()[2] == 0
                  && m.category() != nullptr && m.category()[0] == 'c' && m.category()[1] == 0;
@@ -86,7 +86,7 @@ static void producer_step(int p)
         QMessageLogContext ctx(buf, 100 + id, buf + 2, "c");
         QString text(QChar(text_of(id)));
         QtMessageHandler h = qInstallMessageHandler(nullptr); qInstallMessageHandler(h);     // what qt_message_output calls
-        if (h) h((QtMsgType)(id % 5), ctx, text);
+        if (h) h((QtMsgType)((id * 2) % 5), ctx, text);      // debug, critical, info, warning, ...
     }
     g_returned[id] = ++g_ticket;
     delete[] buf;                      // the caller's buffers are gone as soon as the call returns
@@ -165,9 +165,10 @@ extern "C" void h_conc()
     check_deliveries(NMSG);
 #else
     // C04: stop with a backlog, producers may still be logging while it happens (scheduler keeps running at the yields)
-    int path = vf_range(0, VF_STOP_PATHS - 1);
 #ifdef VF_ONLY_PATH
-    vf_assume(path == VF_ONLY_PATH);
+    const int path = VF_ONLY_PATH;      // one stop path per job
+#else
+    int path = vf_range(0, VF_STOP_PATHS - 1);
 #endif
     int accepted = 0; for (int p = 0; p < VF_PROD; ++p) accepted += g_next[p];
     if (path == 0) g_logger->resetOwnThread();
